@@ -238,6 +238,34 @@ pub fn generate(_seed: u64, tier: &str, sink: &mut Sink) {
             }
         }
     }
+    // a response that has no body has none "whatever its headers say": also when they announce a content or
+    // transfer coding (nginx sends `Content-Encoding: gzip` with its 304s) — the empty body reads as empty, not
+    // as a compressed stream that was cut short at its first byte (defect F21)
+    {
+        let codings: Vec<(Vec<(&str, &str)>, Vec<(&str, &str)>, &str)> = vec![
+            (vec![("Content-Encoding", "gzip")], vec![], "content-encoding-gzip"),
+            (vec![], vec![("content-encoding", "deflate")], "content-encoding-deflate"),
+            (vec![("Content-Encoding", "identity, GZip")], vec![("Vary", "Accept-Encoding")], "content-encoding-list"),
+            (vec![("Content-Encoding", "br")], vec![], "content-encoding-unknown"),
+        ];
+        let cl3: Vec<Vec<&str>> = vec![vec![], vec!["3"], vec!["0"]];
+        let te3: Vec<Vec<&str>> = vec![vec![], vec!["chunked"], vec!["gzip, chunked"], vec!["deflate"]];
+        for m in methods {
+            for st in statuses {
+                if !(m == "HEAD" || (100..200).contains(&st) || st == 204 || st == 304) {
+                    continue;
+                }
+                for cls in &cl3 {
+                    for tes in &te3 {
+                        for o in &codings {
+                            let bi = (cls.len() + tes.len() + o.2.len()) % 2;
+                            run_one(m, st, cls, tes, o, body_after[bi], bi, sink);
+                        }
+                    }
+                }
+            }
+        }
+    }
     // third pass: the same refusals on a response that is not the one handed to the caller — a redirect that is
     // followed. "Make the exchange fail" holds for every response of the exchange: a 3xx with an unusable
     // Content-Length is not followed.
